@@ -113,3 +113,18 @@ Proof.
 Qed.
 
 End Merge.
+
+(* merging adjacent ranges, then doubling the limit until at most M requests remain *)
+Lemma merge_pipeline_ok Sz ks ke M l lo : 0 < Sz -> chain Sz ks ke lo l ->
+  exists r, merge_loop (S (Z.to_nat (ke - ks))) (merge_ranges l 0) Sz M = Some r
+    /\ chain Sz ks ke lo r /\ (forall x, covered l x -> covered r x)
+    /\ (0 < M -> Z.of_nat (length r) <= M).
+Proof.
+  intros HS Hc. destruct (merge_ranges_ok Sz ks ke HS 0 l lo Hc) as (R1 & R2).
+  destruct (merge_loop_ok Sz ks ke HS M (Z.of_nat (Z.to_nat (ke - ks))) ltac:(lia)
+              (S (Z.to_nat (ke - ks))) (merge_ranges l 0) Sz lo R1) as (r & G1 & G2 & G3 & G4).
+  - rewrite Nat2Z.inj_succ. lia.
+  - lia.
+  - intro; discriminate.
+  - exists r. repeat split; auto.
+Qed.
